@@ -71,7 +71,8 @@ def run(case):
         o = attempt(lambda: np.asarray(ba[list(pos)].unpack()).tolist())
         if not o.ok or o.value != e:
             return "packed[%s].unpack() gives %s, expected %s" % (pos, repr(o) if not o.ok else short(o.value, 120), short(e, 120))
-        o = attempt(lambda: np.asarray(ba[np.array(pos, dtype=np.int64)].unpack()).tolist())
+        pdt = ["int64", "int32", "intp", "uint16", ">i8", ">i4", "uint64"][len(pos) % 7]        # position vectors of several integer types, byte-swapped ones too
+        o = attempt(lambda: np.asarray(ba[np.array(pos, dtype=pdt)].unpack()).tolist())
         if not o.ok or o.value != e:
             return "packed[array(%s)].unpack() gives %s, expected %s" % (pos, repr(o) if not o.ok else short(o.value, 120), short(e, 120))
         # "returns a packed array of those elements": it must answer like any packed array (element access, windows)
